@@ -535,7 +535,11 @@ func (a *Act) typeAssert(st *State, in *ssa.TypeAssert) {
 		// value is the zero value when !ok
 		vv := tr.define(a.prefix+in.Name()+"_v", a.sortOf(in.AssertedType), Ite(ok, v, sorts.zero(in.AssertedType)))
 		a.tups[in] = []Term{vv, ok}
-		a.assumeWF(st, in.AssertedType, vv, 1)
+		// well-formedness and the data invariant hold for the asserted value only when the
+		// assertion succeeded (the zero value of the !ok case need not satisfy an invariant)
+		okSt := st.copy()
+		okSt.reach = And(st.reach, ok)
+		a.assumeWF(okSt, in.AssertedType, vv, 1)
 		return
 	}
 	a.mayPanic(st, "assert", in.Pos(), ok, "")
